@@ -21,6 +21,8 @@ var table = map[string]func(props.Cfg) int{
 	"C07": props.C07,
 	"C08": props.C08,
 	"C09": props.C09,
+	"C10": props.C10,
+	"C11": props.C11,
 	"C15": props.C15,
 }
 
